@@ -376,3 +376,91 @@ def instance_corpus(tier="quick", seed=1, reprs=None):
             out.append(make_instance("k", r, "h_1000", discs, "ALL_TABLE", order="shuffled", style="plain", rng=random.Random(3)))
             out.append(make_instance("k", r, "g_1000", [base + i for i in range(1000)], "ALL_AUTO", order="reversed", style="plain", rng=random.Random(4)))
     return out
+
+
+# ---------------------------------------------------------------------------------------------
+# C11 corpus: the documented domain of declarations (literal spellings, implicit/explicit mixes,
+# limits, foreign attributes, sizes)
+# ---------------------------------------------------------------------------------------------
+def spell(d, style, repr_):
+    neg = d < 0
+    a = -d if neg else d
+    if style == "hex":
+        t = "0x%X" % a
+    elif style == "hex_us":
+        t = "0x_%x" % a
+    elif style == "oct":
+        t = "0o%o" % a
+    elif style == "bin":
+        t = "0b%s" % bin(a)[2:]
+    elif style == "us":
+        t = "_".join(re_chunks(str(a)))
+    elif style == "suffix":
+        t = "%d%s" % (a, repr_)
+    elif style == "suffix_us":
+        t = "%d_%s" % (a, repr_)
+    else:
+        t = str(a)
+    return ("-" + t) if neg else t
+
+
+def re_chunks(s):
+    out = []
+    while len(s) > 3:
+        out.insert(0, s[-3:])
+        s = s[:-3]
+    out.insert(0, s)
+    return out
+
+
+def c11_specs(tier="quick", seed=1):
+    rng = random.Random(seed + 11)
+    out = []
+    styles = ["dec", "hex", "hex_us", "oct", "bin", "us", "suffix", "suffix_us"]
+    k = 0
+    for r in REPRS:
+        lo, hi = dom_min(r), dom_max(r)
+        tlo, thi = rmin(r), rmax(r)
+        signed = REPRS[r][1]
+        # 1. literal spellings, one enum per style, explicit discriminants incl. negative ones
+        base = [-77, -3, 0, 5, 100] if signed else [0, 5, 100, 200]
+        for st in styles:
+            vs = [Variant(ident_for(i), d, spell(d, st, r)) for i, d in enumerate(base)]
+            rng.shuffle(vs)
+            out.append(EnumSpec("e_%s_sp_%s" % (r, st), r, vs, list(CFG["ALL_TABLE" if k % 2 else "ALL_AUTO"]), tags={"C11", "spelling", st}))
+            k += 1
+        # 2. implicit after explicit, implicit first, implicit after negative
+        mixes = [
+            [("A", None), ("B", None), ("C", "10"), ("D", None), ("E", "7"), ("F", None)],
+            [("A", "5"), ("B", None), ("C", None), ("D", "2"), ("E", None)],
+        ]
+        if signed:
+            mixes.append([("A", "-2"), ("B", None), ("C", None), ("D", None), ("E", "-10"), ("F", None)])
+            mixes.append([("Z", "-1"), ("Y", None)])
+        for mi, mx in enumerate(mixes):
+            vs = []
+            prev = -1
+            for ident, sp in mx:
+                d = prev + 1 if sp is None else int(sp)
+                vs.append(Variant(ident, d, sp))
+                prev = d
+            out.append(EnumSpec("e_%s_mix%d" % (r, mi), r, vs, list(CFG["ALL_MATCH" if mi % 2 else "ALL_TABLE"]), tags={"C11", "implicit"}))
+        # 3. limits of the repr and of the i64 domain
+        lim = [(lo, "lo"), (hi, "hi")]
+        vs = [Variant("LO", lo, str(lo)), Variant("LO1", lo + 1, None), Variant("MID", 0 if lo < 0 else 7, str(0 if lo < 0 else 7)), Variant("HI", hi, spell(hi, "hex", r))]
+        out.append(EnumSpec("e_%s_limits" % r, r, vs, list(CFG["ALL_TABLE"]), tags={"C11", "limits"}))
+        vs = [Variant("HI1", hi - 1, str(hi - 1)), Variant("HI", hi, None), Variant("LO", lo, spell(lo, "us", r))]
+        out.append(EnumSpec("e_%s_limits2" % r, r, vs, list(CFG["ALL_AUTO"]), tags={"C11", "limits"}))
+        # 4. foreign attributes and doc comments
+        vs = [Variant("A", 1, "1", attrs=("/// first", "#[allow(dead_code)]")), Variant("B", 2, None, rename="bee", attrs=("#[doc = \"second\"]",)),
+              Variant("C", 9, "9", attrs=("#[cfg_attr(all(), allow(unused))]", "/** block doc */"))]
+        out.append(EnumSpec("e_%s_attrs" % r, r, vs, list(CFG["ALL_TABLE"]), tags={"C11", "attrs"},
+                            enum_attrs=("/// An enum with foreign attributes", "#[allow(clippy::all)]", "#[cfg_attr(all(), allow(dead_code))]", "#[doc(hidden)]")))
+    # 5. sizes
+    out.append(EnumSpec("e_u16_n300", "u16", [Variant("V%d" % i, i, None) for i in range(300)], list(CFG["ALL_AUTO"]), tags={"C11", "size"}))
+    out.append(EnumSpec("e_i16_n400h", "i16", [Variant("V%d" % i, -200 + i + (i // 9), str(-200 + i + (i // 9)) if i % 9 == 0 else None) for i in range(400)],
+                        list(CFG["ALL_TABLE"]), tags={"C11", "size"}))
+    if tier != "quick":
+        out.append(EnumSpec("e_u16_n65534", "u16", [Variant("V%d" % i, i, None) for i in range(65534)], ["as_str", "try_from", "MIN", "MAX", "next", "iter", "into"], tags={"C11", "size", "max"}))
+        out.append(EnumSpec("e_i32_n5000h", "i32", [Variant("V%d" % i, -2500 + 2 * i, str(-2500 + 2 * i)) for i in range(5000)], list(CFG["ALL_TABLE"]), tags={"C11", "size"}))
+    return out
